@@ -339,6 +339,14 @@ class H2Protocol:
                         self.priority.remove_stream(event.stream_id)
                     except priority.MissingStreamError:
                         pass
+                elif stream is not None and buffer is not None and not buffer._complete:
+                    # A WebSocket that has been closed (by either side's
+                    # close frame, or for its app having finished): what
+                    # is buffered is sent, the stream then ended (and
+                    # forgotten, as any that has sent all of its data).
+                    buffer.set_complete()
+                    self.priority.unblock(event.stream_id)
+                    await self.has_data.set()
                 if event.stream_id not in self.streams:
                     # Already closed (e.g. reset by the client), this is
                     # only its app finishing: the connection's idle state
